@@ -3395,3 +3395,7 @@ mod tests {
         let _ = proxy.finish().await;
     }
 }
+
+// Verification hook (inert unless built by `cargo kani`, which sets --cfg kani).
+#[cfg(kani)]
+mod verif_kani;
